@@ -92,6 +92,7 @@ func checkC12(c *core.Ctx) error {
 	c.Rule("C12.R2", "parameters typed ConstScalar/ConstVector/ConstMatrix are never written (directly, through a downcast, an alias, a derived reference or a callee); the reviewed input parameters of algorithm entry points are not written", 1500)
 	c.Rule("C12.R3", "the starting point of every optimizer reaches the iteration state only through Clone*/As* (a fresh copy)", 10)
 	c.Rule("C12.R5", "methods of the const interface strata (ConstAt, ConstIterator, Equals, Get*, ...) do not write their receiver", 800)
+	checkSetParametersPure(c)
 	e := eff.New(c.LibPkgs(), c.Fset)
 	c.Analysed["functions"] = len(e.All)
 
